@@ -23,6 +23,7 @@ class KllC08(Part):
     model_exe = "dsmodel_kll"
     family = "kll"
     timeout = 600
+    cov_sink = None             # set by the Spec (extra_stages): evidence dict receiving coin-tree statistics
 
     @staticmethod
     def cmp(x, y):
@@ -107,8 +108,8 @@ class KllC08(Part):
             budgets = [rng.choice([3, 5, 6, 8, 9, 10, 11, 12]) for _ in range(40)]
             nlong = 6
         else:
-            budgets = [rng.choice([6, 8, 10, 12, 12, 13]) for _ in range(80)] + [14, 15, 16]
-            nlong = 12
+            budgets = [rng.choice([6, 8, 10, 12, 12, 13, 14]) for _ in range(150)] + [15, 16]
+            nlong = 20
         for b in budgets:
             hs.append(self.tree_history(rng, b))
         for _ in range(nlong):
@@ -173,6 +174,11 @@ class KllC08(Part):
             bad.append(("flips-depend-on-outcomes", "flips consumed per leaf: %s" % sorted(fl), i))
             return bad
         F = fl.pop()
+        if self.cov_sink is not None:
+            cs = self.cov_sink
+            cs["coin_trees"] = cs.get("coin_trees", 0) + 1
+            cs["coin_leaves"] = cs.get("coin_leaves", 0) + len(leaves)
+            cs["max_flips_enumerated"] = max(cs.get("max_flips_enumerated", 0), F)
         if count != len(leaves) or len(leaves) != 2 ** F:
             bad.append(("leaf-count", "%d leaves for %d flips" % (len(leaves), F), i))
             return bad
@@ -255,6 +261,9 @@ class C08Kll(Spec):
 
     def parts(self):
         return [PART]
+
+    def extra_stages(self, rep, tier, rng, broken):
+        PART.cov_sink = rep.cov
 
 
 SPEC = C08Kll()
